@@ -175,4 +175,21 @@ def analyse(F, ev, walker_paths, local_fn_paths):
                 if isinstance(v, (dict, list)):
                     visit(v, nxt, ("callee" if kk == "callee" else kk) if k is not None else role)
         visit(body, None, None)
+        if is_walker and top is not None:
+            # the walk descends: its own argument is used only as the scrutinee of the top-level match (a recursive call on
+            # the argument itself, not on a child, would not terminate)
+            uses = []
+
+            def cu(x, inside_scrut):
+                if isinstance(x, dict):
+                    if x.get("k") in ("var", "upvar") and x.get("id") == pid and not inside_scrut:
+                        uses.append(x)
+                    for kk, v in x.items():
+                        cu(v, inside_scrut or (x is top and kk == "scrut"))
+                elif isinstance(x, list):
+                    for v in x:
+                        cu(v, inside_scrut)
+            cu(body, False)
+            if uses:
+                out.append(("self|%s" % f.short, where, "the tree walk uses its whole argument outside the top-level match (%d uses): a recursive call on it would not descend" % len(uses)))
     return out, n_uses[0], len(fns)
